@@ -54,6 +54,7 @@ func e2Session(args []string) int {
 	big := fs.Bool("big", false, "log more than the 4 MiB WAL buffer between rotations (async)")
 	bigSync := fs.Bool("bigsync", false, "a few values larger than the 4 MiB WAL buffer, so that one synchronous append needs several write calls")
 	nkeys := fs.Int("keys", 8, "")
+	directWAL := fs.Bool("directwal", false, "the big asynchronous session uses the direct-I/O WAL writer")
 	_ = fs.Parse(args)
 	f, err := os.OpenFile(*ctlPath, os.O_WRONLY|os.O_CREATE|os.O_APPEND, 0644)
 	if err != nil {
@@ -78,7 +79,7 @@ func e2Session(args []string) int {
 	}
 	for s := 0; s < sessions; s++ {
 		o := dbOptSet{
-			Memstore:  gen.Pick(r, uint64(100), 150, 1024),
+			Memstore:  gen.Pick(r, uint64(16), 100, 150, 1024),
 			Threshold: gen.Pick(r, 0, 1, 2),
 			MaxSize:   gen.Pick(r, uint64(1), 300, 1000, 5<<30),
 			Ratio:     gen.Pick(r, float32(0), 0.2, 0.5, 1),
@@ -97,6 +98,7 @@ func e2Session(args []string) int {
 			faultAt = 5 + r.Intn(nops-5)
 		}
 		afterFault := 0
+		burst := 0 // remaining calls of a run of consecutive deletes (the only way a memstore grows without a Put)
 		bigNow := *big && s == 1
 		bigSyncNow := *bigSync && s == 1
 		if (*big || *bigSync) && s == 0 {
@@ -105,6 +107,7 @@ func e2Session(args []string) int {
 		if bigNow {
 			o.Memstore = 16 << 20
 			nops = 90 + r.Intn(40)
+			o.DirectIOWAL = *directWAL
 		}
 		if bigSyncNow {
 			o.Memstore = 64 << 20
@@ -159,7 +162,18 @@ func e2Session(args []string) int {
 					i = nops
 				}
 			}
+			if burst == 0 && !bigNow && !bigSyncNow && r.Intn(15) == 0 {
+				burst = 2 + r.Intn(5)
+			}
 			switch {
+			case burst > 0:
+				// delete runs: keys that sit in older tables and long keys that were never written (their tombstones
+				// alone push a small memstore over its limit)
+				burst--
+				kind = "del"
+				if r.Intn(3) == 0 {
+					k = fmt.Sprintf("never-written-%02d-%s", r.Intn(4), strings.Repeat("p", 4+r.Intn(12)))
+				}
 			case x < 22:
 				kind = "del"
 			case *mode == "c17" && x < 40:
@@ -692,6 +706,7 @@ type e2Config struct {
 	bigSync   bool   // sync WAL with values larger than the WAL buffer
 	mode      string // sync | async | c17
 	big       bool
+	directWAL bool // the big asynchronous session logs through the direct-I/O WAL writer (database directory on a real disk)
 	seed      int64
 	nkeys     int
 	maxImages int // 0 = all
@@ -701,6 +716,9 @@ type e2Config struct {
 func e2RunSession(c *fw.Case, cfg e2Config) *e2Summary {
 	work := c.Dir
 	dbdir := filepath.Join(work, "db")
+	if cfg.directWAL {
+		dbdir = filepath.Join(c.DiskDir(), "db") // O_DIRECT needs a real file system
+	}
 	_ = os.MkdirAll(dbdir, 0755)
 	ctl := filepath.Join(work, "ctl")
 	strSize := 300000
@@ -713,6 +731,9 @@ func e2RunSession(c *fw.Case, cfg e2Config) *e2Summary {
 	}
 	if cfg.bigSync {
 		args = append(args, "-bigsync")
+	}
+	if cfg.directWAL {
+		args = append(args, "-directwal")
 	}
 	logPath, res := e2Trace(work, "trace.log", 240, strSize, args...)
 	sum := &e2Summary{byPhase: map[string]int{}, verdicts: map[string]*e2Verdict{}, verdictCount: map[string]int{}}
